@@ -247,6 +247,14 @@ func VerifC11FillMore(start, end, avail int) (ns, ne int, errs string, size int)
 	return s.start, s.end, errs, size
 }
 
+// verifC11SocketLike makes a pipe end behave like a socket whose peer left:
+// setting a deadline still succeeds (a pipe refuses it), the write is what fails.
+type verifC11SocketLike struct{ net.Conn }
+
+func (c verifC11SocketLike) SetDeadline(t time.Time) error      { _ = c.Conn.SetDeadline(t); return nil }
+func (c verifC11SocketLike) SetReadDeadline(t time.Time) error  { _ = c.Conn.SetReadDeadline(t); return nil }
+func (c verifC11SocketLike) SetWriteDeadline(t time.Time) error { _ = c.Conn.SetWriteDeadline(t); return nil }
+
 // VerifC11DrainOp is one step of a drain-side script: 's' stage a reply of Len
 // bytes whose first two bytes carry ID, 'f' flush, 'x' the peer goes away.
 type VerifC11DrainOp struct {
@@ -262,7 +270,7 @@ type VerifC11DrainOp struct {
 func VerifC11DrainRun(ops []VerifC11DrainOp) (okays []bool, wire []uint16, drainSize int) {
 	a, b := net.Pipe()
 	s := new(tcpStream)
-	s.reset(a)
+	s.reset(verifC11SocketLike{a})
 	if s.wait != nil {
 		s.wait.Stop()
 	}
